@@ -36,8 +36,9 @@ const LINES: &[(&str, &str)] = &[
     ("let x = [10, 20][5]", ""), // a let whose own initialiser fails: x keeps its earlier binding, or stays undefined
     // -- only in the slot family: a statement that stores closures over its own variable and then fails
     ("let r = [0, 0]", ""),
-    ("{ let s = 1; r[0] = fn() { s }; r[1] = fn(v) { s = v }; 1 / 0 }", "{ let s = 1; r[0] = fn() { s }; r[1] = fn(v) { s = v }; }"),
-    ("let u = 7", ""),
+    // (the stored closure uses a literal of its own: the failing line's constants must outlive the failure)
+    ("{ let s = 1; r[0] = fn() { [s, 100, \"in\"] }; r[1] = fn(v) { s = v }; 1 / 0 }", "{ let s = 1; r[0] = fn() { [s, 100, \"in\"] }; r[1] = fn(v) { s = v }; }"),
+    ("let u = 7; let t = \"out\"", ""),
     ("r[0]()", ""),
     ("r[1](99)", ""),
     ("u", ""),
